@@ -40,7 +40,8 @@ ObsFails(r) ==
 PairFails(r) ==
   LET A == r.area
       viewcells == {c \in GPositions(r.ob.grid) : WorldCellOf(r.st, A, c) = r.cell}
-  IN W(r, "C06", "C06.pairsetup",
+  IN IF r.raised THEN W(r, "C06", "C06.raise", FALSE) ELSE
+     W(r, "C06", "C06.pairsetup",
         /\ InGrid(r.st.grid, r.cell)
         /\ r.st2 = [r.st EXCEPT !.grid = SetCell(@, r.cell, Cell(r.st2.grid, r.cell))]
         /\ \A c \in viewcells : Cell(r.ob.grid, c) = Hidden)
@@ -49,7 +50,8 @@ PairFails(r) ==
 \* a rotated world: st2 = RotWorld(rot, st) must give an equal observation
 RotFails(r) ==
   W(r, "C07", "C07.setup", r.st2 = RotWorld(r.rot, r.st))
-  \cup W(r, "C07", "C07.equal", r.ob2 = r.ob)
+  \cup W(r, "C07", "C07.raise", ~r.raised)   \* an area in the function's domain must not raise, in any rotation
+  \cup W(r, "C07", "C07.equal", r.raised \/ r.ob2 = r.ob)
 
 Fails(r) ==
   CASE r.kind = "obs" -> ObsFails(r)
